@@ -157,12 +157,28 @@ func (w *Walker) Walk(
 		)
 		w.cancelAll()
 
-		if w.failFastTriggered {
-			return w.completions, nil
+		// Node routines that are still finishing keep writing to w.completions
+		// after we return, so hand out a snapshot instead of the live map
+		completions, failFastTriggered := w.snapshotCompletions()
+		if failFastTriggered {
+			return completions, nil
 		} else {
-			return w.completions, ctx.Err()
+			return completions, ctx.Err()
 		}
 	}
+}
+
+// snapshotCompletions returns a copy of the completions recorded so far
+// and whether failFast was triggered.
+func (w *Walker) snapshotCompletions() (CompletionMap, bool) {
+	w.doneMutex.Lock()
+	defer w.doneMutex.Unlock()
+
+	completions := make(CompletionMap, len(w.completions))
+	for nodeLabel, completion := range w.completions {
+		completions[nodeLabel] = completion
+	}
+	return completions, w.failFastTriggered
 }
 
 // cancelNode cancels a target if it is present in the graph (not idempotent!)
